@@ -133,6 +133,24 @@ def monWithdrawPos (amount : Nat) (ownerGot fcGot ownersGot fmOut : Int) (emerge
              (emergencyActive || (ownerGot == amount && fcGot == 0 && ownersGot == 0), "C08-withdraw-exact"),
              (!emergencyActive || amount ≤ ownerGot * 10 + ownersGot * 10, "C09-cap")]
 
+/-- C08 (`mon_close_expiry`): a position closed by a close unlocks exactly its own recorded duration after the block time -/
+def monCloseExpiry (e : Option Nat) (now d : Nat) : Verdict :=
+  firstFail [(e == some (now + d), "C08-expiry")]
+
+/-- C09 (`mon_penalty_total`): out of the position's amount only the dust of the division among the `n` distinct active farm
+    owners (fewer than `max n 1` units) stays behind in the farm manager -/
+def monPenaltyTotal (amt : Nat) (out : Int) (n : Nat) : Verdict :=
+  firstFail [(decide (out ≤ (amt : Int)) && decide ((amt : Int) - out < ((max n 1 : Nat) : Int)), "C09-penalty-not-distributed")]
+
+/-- C14 (`mon_single_shape`): an ACCEPTED single-asset deposit went into a pool with exactly two assets that held liquidity -/
+def monSingleShape (n : Nat) (empty : Bool) : Verdict :=
+  if n != 2 then some "C14-larger-pool" else if empty then some "C14-empty-pool" else none
+
+/-- C12 (`mon_route_unquoted`): a route that EXECUTED although `SimulateSwapOperations` refused to price it an instant before;
+    `clean` = pools pairwise distinct and no denom produced by two hops (otherwise the query's per-denom totals may overflow) -/
+def monRouteUnquoted (clean : Bool) : Verdict :=
+  if clean then some "C12-route-quote" else none
+
 /-- one LP token's slice of a claim: entry epoch, user and total change points, and its farms as
     (rate, start, end, reward denom, observed increase of `claimed_amount`) -/
 structure ClaimLp where
